@@ -6,6 +6,9 @@ Engine E2: complete enumeration of a grammar of small x86_32 programs whose bran
 
 with the input in a register (EAX, symbolised with update_state({EAX: INPUT})) or in a 4-byte memory cell
 (symbolize_memory over its four bytes; compared in place, loaded first, or modified in place first).
+A family ("division") branches on the quotient or remainder of an 8/16-bit IDIV/DIV whose dividend is the full symbolic
+register pair (AX, or DX:AX loaded from the whole input) with the constant divisors 3, 100, -7, so that dividend x
+divisor overflows the dividend's width for part of the inputs.
 A further family ("straddle") symbolises a 4- or 2-byte buffer in the middle of the data page, performs one 8/16/32-bit
 store (constant, or read-modify-write) that straddles the START of the buffer, straddles its END, covers it from below,
 lies inside or lies outside it, and then branches on a byte / word / dword of the buffer (overwritten, kept or mixed
@@ -167,9 +170,36 @@ def straddles(buflen, skinds, stores, cmps, jccs):
             for (csize, coff, cconst) in cmps for j in jccs]
 
 
+def division(op, width, divisor, part, cconst, jcc):
+    """A branch on the quotient (part "q") or remainder ("r") of a division whose dividend uses the FULL register pair
+    symbolically: 8-bit `op BL` divides AX (low half of the input), 16-bit `op BX` divides DX:AX (the whole input, its
+    high half moved to DX first). The divisor is a constant (never zero)."""
+    mask = (1 << width) - 1
+    lines = ["main:", "    MOV EBX, 0x%X" % (divisor & mask)]
+    if width == 16:
+        lines += ["    MOV EDX, EAX", "    SHR EDX, 0x10"]
+    lines.append("    %s %s" % (op, "BL" if width == 8 else "BX"))
+    reg = {(8, "q"): "AL", (8, "r"): "AH", (16, "q"): "AX", (16, "r"): "DX"}[(width, part)]
+    lines += ["    CMP %s, 0x%X" % (reg, cconst & mask),
+              "    %s l1" % jcc,
+              "    MOV ECX, 0x1",
+              "    JMP end",
+              "l1:",
+              "    MOV ECX, 0x2",
+              "end:",
+              "    RET"]
+    return "\n".join(lines) + "\n"
+
+
+def divisions(ops, widths, divisors, branches):
+    return [["division", op, w, d, part, c, j] for op in ops for w in widths for d in divisors for (part, c, j) in branches]
+
+
 def build(spec):
     if spec[0] == "single":
         return single(*spec[1:])
+    if spec[0] == "division":
+        return division(*spec[1:])
     if spec[0] == "straddle":
         return straddle(*spec[1:])
     return multi(*spec[1:])
@@ -178,6 +208,8 @@ def build(spec):
 def spec_mode(spec):
     if spec[0] == "straddle":
         return "membuf"
+    if spec[0] == "division":
+        return "reg"
     return spec[1] if spec[0] == "single" else spec[2]
 
 
@@ -238,9 +270,21 @@ def quick_straddles():
             + straddles(4, ["const"], ST_START[:1] + ST_END[:1], [(32, 0, 0x10)], ["JB"]))
 
 
+DIV_BRANCHES = [("q", 0x0, "JL"), ("q", 0x3, "JZ"), ("r", 0x0, "JL"), ("r", 0x1C, "JZ")]
+DIV_BRANCHES_T = DIV_BRANCHES + [("q", 0x3, "JG"), ("q", 0xFFFFFFFD, "JZ"), ("r", 0x1C, "JB"), ("q", 0x0, "JZ")]
+DIV_INPUTS = [0x0, 328, 0xFBD1, 0x7FFF, 0x8000]
+
+
+def quick_divisions():
+    return (divisions(["IDIV"], [8], [3, 100, -7], DIV_BRANCHES)
+            + divisions(["IDIV"], [16], [100], DIV_BRANCHES[:2])
+            + divisions(["DIV"], [8], [100], DIV_BRANCHES[1:2] + DIV_BRANCHES[3:]))
+
+
 def quick_groups():
     """(program specs, strategies, initial inputs) groups of the quick tier."""
     return [
+        (quick_divisions(), ["branch"], [0x0, 0xFBD1]),
         (quick_straddles(), ["branch"], INS),
         (singles("reg", ARITH[:5], CMPS[:4], JCCS[:7]), ["branch"], IN2),
         (singles("memdirect", ["none"], CMPS[:4], JCCS[:5]), ["branch"], IN2),
@@ -282,6 +326,9 @@ def plan(tier):
         (multis(["nested", "seq", "nestedft"], ["reg", "memdirect"], M1, MIDS, M2), ALL3, IN2M),
         (multis(["nested"], ["memload"], M1[:2], MIDS, M2[:2]), ALL3, IN4),
         (threes(["reg", "memdirect"], M1[:3], MIDS, M2[:2], M3) + threes(["memdirect"], M1[3:4], ["none"], M2[1:2], M3[:1]), ALL3, IN2M),
+        (quick_divisions(), ["branch"], DIV_INPUTS),
+        ([x for x in divisions(["IDIV", "DIV"], [8, 16], [3, 100, -7], DIV_BRANCHES_T) if x not in quick_divisions()], ["branch"], DIV_INPUTS),
+        (divisions(["IDIV"], [8, 16], [100, -7], DIV_BRANCHES[:2]), ["code", "path"], [328, 0x8000]),
         (quick_straddles(), ["branch"], INS),
         ([x for x in straddles(4, ["const", "rmw"], ST_START + ST_END + ST_IN + ST_OUT, BYTE_CMPS4, ["JZ"])
           + straddles(2, ["const", "rmw"], ST_COVER2, BYTE_CMPS2, ["JNZ"])
@@ -540,7 +587,7 @@ def writes_cell(spec):
     """The program modifies the symbolised memory cell in place before (one of) its compares."""
     if spec[0] == "single":
         return spec[1] == "meminplace"
-    if spec[0] == "straddle":
+    if spec[0] in ("straddle", "division"):
         return False
     return spec[2] in ("memdirect", "meminplace") and spec[5] != "none"
 
@@ -551,6 +598,10 @@ def skeleton(spec):
     if spec[0] == "straddle":
         where, what = straddle_class(spec)
         return "straddle/buf%d/%s-store-%s/branch-on-%s" % (spec[1], spec[2], where, what)
+    if spec[0] == "division":
+        _, op, width, divisor, part, cconst, jcc = spec
+        return "division/%s%d/%s-divisor/%s-%s" % (op, width, "negative" if divisor < 0 else "positive",
+                                                   "quotient" if part == "q" else "remainder", jcc)
     kind = "single" if spec[0] == "single" else spec[1]
     mode = spec_mode(spec)
     if writes_cell(spec):
@@ -704,7 +755,7 @@ def _run(ctx):
         "evaluations": tot.get("runs", 0),
         "distinct_nontrivial": tot.get("nontrivial", 0),
         "programs": len(progs),
-        "programs_by_family": {k: sum(1 for s in progs if (s[0] if s[0] == "single" else s[1]) == k) for k in ("single", "seq", "nested", "nestedft", "three", "straddle")},
+        "programs_by_family": {k: sum(1 for s in progs if (s[0] if s[0] == "single" else s[1]) == k) for k in ("single", "seq", "nested", "nestedft", "three", "straddle", "division")},
         "programs_by_input_mode": {m: sum(1 for s in progs if spec_mode(s) == m) for m in MODES},
         "dse_runs_with_error": tot.get("errors", 0),
         "path_constraints_recorded": tot.get("constraints", 0),
